@@ -93,7 +93,7 @@ func (a *HMACAuth) Verify(r *http.Request, requestPath string, body []byte) erro
 	} else {
 		a.nonce.setNow(now)
 	}
-	if !a.nonce.seenOnce(nonce, t.Add(a.Tolerance)) {
+	if !a.nonce.seenOnce(nonce, t, a.Tolerance) {
 		return ErrUnauthorized
 	}
 
@@ -139,7 +139,7 @@ func (a *HMACAuth) InheritReplayState(prev *HMACAuth) {
 	}
 	a.notBefore = prev.notBefore
 	if a.Tolerance > prev.Tolerance {
-		prev.nonce.extend(a.Tolerance - prev.Tolerance)
+		prev.nonce.widen(a.Tolerance-prev.Tolerance, a.Tolerance)
 		// Nonces whose window had already closed under the old tolerance may have
 		// been swept and cannot be recognised any more: keep refusing timestamps
 		// that were already stale at the moment the tolerance was raised.
@@ -171,6 +171,10 @@ type nonceCache struct {
 	mu  sync.Mutex
 	now func() time.Time
 	m   map[string]time.Time
+	// window is the widest tolerance handed over on a reload. A request that was
+	// already in flight on the previous authenticator records its nonce with the
+	// narrower tolerance it started with; it must be remembered just as long.
+	window time.Duration
 }
 
 func newNonceCache(now func() time.Time) *nonceCache {
@@ -192,21 +196,29 @@ func (c *nonceCache) setNow(now func() time.Time) {
 	c.mu.Unlock()
 }
 
-func (c *nonceCache) extend(by time.Duration) {
+func (c *nonceCache) widen(by, window time.Duration) {
 	c.mu.Lock()
 	defer c.mu.Unlock()
 	for k, exp := range c.m {
 		c.m[k] = exp.Add(by)
 	}
+	if window > c.window {
+		c.window = window
+	}
 }
 
-func (c *nonceCache) seenOnce(nonce string, expiresAt time.Time) bool {
+func (c *nonceCache) seenOnce(nonce string, ts time.Time, tolerance time.Duration) bool {
 	if nonce == "" {
 		return false
 	}
 
 	c.mu.Lock()
 	defer c.mu.Unlock()
+
+	if c.window > tolerance {
+		tolerance = c.window
+	}
+	expiresAt := ts.Add(tolerance)
 
 	// Opportunistic cleanup. An entry stays alive through its expiry instant:
 	// the timestamp tolerance check is inclusive, so a replay arriving exactly
